@@ -237,3 +237,39 @@ PROPS["C15"] = {
     "outside": "tengo.Eval's templating; user Object implementations; longer histories",
     "stubs": COMMON_STUBS,
 }
+
+PROPS["C07"] = {
+    "level": "model_checking",
+    "harness": ["C07_"],
+    "tiers": {
+        "quick": {"timeout": "20s", "maxsteps": 12000000, "bounds": "5 programs (counting loop, unbounded self tail call, nested calls, straight-line, builtin-heavy; each terminating and, where possible, running forever) x cancellation instant {before the run starts, at VM poll k for k in 0..7, never} x delay {immediately, 1 poll} before the waiting goroutine is scheduled x goroutine start order; followed by a second RunContext on the same Compiled; the loop bound of the second run is a symbolic input in 0..2", "cross": 0},
+        "thorough": {"timeout": "60s", "maxsteps": 12000000, "bounds": "as quick with k in 0..59 and delays up to 2 polls", "cross": 0},
+    },
+    "reach": {"C07_Cancel": ["cancel"]},
+    "assumptions": [
+        "schedules are explored by a cooperative scheduler: control changes hands only at channel operations, select, mutex operations and where the harness hands off; the VM polls its abort flag once per instruction and the cancellation instant is the poll index",
+        "'bounded delay' is claimed as 'no VM instruction is dispatched after the VM observed the abort flag, and RunContext returns once the waiting goroutine has been scheduled (at most 2 polls after the cancellation)', not in wall-clock time",
+        "the context is a harness-defined context.Context (Done channel + Err); the context package itself is not executed",
+        "natively the replay runs the harness without the poll hook (results only)",
+    ],
+    "outside": "real goroutine scheduling and real time; a long-running native call (excluded by the property); more than one cancellation",
+    "stubs": COMMON_STUBS,
+}
+
+PROPS["C08"] = {
+    "level": "model_checking",
+    "harness": ["C08_"],
+    "tiers": {
+        "quick": {"timeout": "20s", "maxsteps": 20000000, "bounds": "12 programs that index/iterate/slice shared string constants, use array/map constants, closures, a source module, a builtin module, a mutable input array, failing programs (error-position formatting); two clones run as two logged activities with symbolic inputs (a, b per clone); 8x8 method pairs {Run, RunContext, Get, GetAll, Set, IsDefined, Clone, Size} on one Compiled over 3 programs", "cross": 0},
+        "thorough": {"timeout": "60s", "maxsteps": 20000000, "bounds": "as quick", "cross": 0},
+    },
+    "reach": {"C08_Clones": ["clones"], "C08_Methods": ["methods"]},
+    "race": True,
+    "assumptions": [
+        "data-race freedom is decided sequentially: two activities race in some interleaving iff one writes a heap cell (interpreter cell: variable, struct field, slice element, map object) that the other reads or writes and the accesses are not ordered by a common sync.Mutex/RWMutex held exclusively by the writer and at least shared by the other; interleavings are not enumerated",
+        "K > 2 concurrent clones: pairwise disjointness extends by symmetry (argument, not checked)",
+        "accesses inside engine intrinsics (fmt, errors, strings.Builder) are not logged; appends into spare capacity are logged through the element stores of the SSA code only",
+    ],
+    "outside": "objects a caller keeps after Get and mutates during a Run; user-supplied Go callables; more than two activities",
+    "stubs": COMMON_STUBS,
+}
